@@ -401,7 +401,13 @@ func checkInvariant(scen string, in RawIn) (vs []*mc.Violation, class string) {
 
 // ---- exploration ----
 
-func exploreDoc(scen string, d gen.DDoc, k int, st *mc.Stats) {
+// slimDelivery (thorough tier, two-deviation passes only): the byte-delivery deviation is limited to the six named modes
+// and splits at the first, middle and last inner offset. Splits at EVERY offset are covered by the one-deviation pass of
+// the same documents, which the thorough tier runs first; combined with a second deviation they multiplied the pass
+// beyond its deadline.
+func exploreDoc(scen string, d gen.DDoc, k int, st *mc.Stats) { exploreDocD(scen, d, k, false, st) }
+
+func exploreDocD(scen string, d gen.DDoc, k int, slimDelivery bool, st *mc.Stats) {
 	expected := gen.CanonRef(d.Ref())
 	execs, div := mc.Explore(k, st, func(x *mc.X) {
 		var opt gen.RenderOpt
@@ -445,7 +451,13 @@ func exploreDoc(scen string, d gen.DDoc, k int, st *mc.Stats) {
 			opt.FlipAt, opt.FlipFrom = pos[(c-1)%len(pos)], c > len(pos)
 		}
 		text := d.Render(opt)
-		del := gen.DeliveryForChoice(dev(gen.DeliveryModes(len(text)), "delivery"))
+		var del int
+		if nm := gen.DeliveryModes(len(text)); slimDelivery && nm > 9 {
+			choices := []int{0, 1, 2, 3, 4, 5, 6, 6 + (nm-6)/2, nm - 1}
+			del = gen.DeliveryForChoice(choices[dev(len(choices), "delivery")])
+		} else {
+			del = gen.DeliveryForChoice(dev(nm, "delivery"))
+		}
 		in := In{text, expected, del, devs}
 		st.Evals++
 		st.Traces++
@@ -543,14 +555,23 @@ func Run(r *mc.Run) {
 		multiPara = append(multiPara, gen.DDoc{a, recase(a, swapCase)}, gen.DDoc{recase(a, strings.ToLower), a, recase(a, strings.ToUpper)}, gen.DDoc{a, repParas[0], recase(a, swapCase)})
 	}
 	k := r.Pick(1, 2)
-	run := func(name string, docs []gen.DDoc, k int) {
-		r.Scenario(name, map[string]interface{}{"base_documents": len(docs), "deviation_bound": k, "access_paths": 7}, len(docs), func(i int, st *mc.Stats) bool {
+	run1 := func(name string, docs []gen.DDoc, k int, slim bool) {
+		r.Scenario(name, map[string]interface{}{"base_documents": len(docs), "deviation_bound": k, "access_paths": 9, "delivery_splits": map[bool]string{false: "every inner offset", true: "first, middle and last inner offset (every offset: in the one-deviation pass)"}[slim]}, len(docs), func(i int, st *mc.Stats) bool {
 			if r.Expired() {
 				return false
 			}
-			exploreDoc(name, docs[i], k, st)
+			exploreDocD(name, docs[i], k, slim, st)
 			return true
 		})
+	}
+	run := func(name string, docs []gen.DDoc, k int) {
+		if k >= 2 && !r.Quick() {
+			// thorough: every single deviation with every delivery split, then pairs of deviations with the slim delivery set
+			run1(name, docs, 1, false)
+			run1(name+"-two-deviations", docs, k, true)
+			return
+		}
+		run1(name, docs, k, false)
 	}
 	run("single-field-shapes", single, k)
 	if len(single3) > 0 {
